@@ -185,6 +185,7 @@ func cmdCheck(args []string) int {
 	keys := map[string]*keyStatus{}
 	var order []string
 	vacuous := []string{}
+	beTotal, beFeasible := map[string]int{}, map[string]int{}
 	feasible := map[string]int{}
 	paths := map[string]int{}
 	for i := range rr.Results {
@@ -194,6 +195,11 @@ func cmdCheck(args []string) int {
 				paths[r.O.Func]++
 				if r.R.Status != "unsat" {
 					feasible[r.O.Func]++
+				}
+			} else if r.O.Kind == "vacuity-backedge" {
+				beTotal[r.O.Key]++
+				if r.R.Status != "unsat" {
+					beFeasible[r.O.Key]++
 				}
 			} else if r.O.Kind == "vacuity-pre" {
 			} else if r.R.Status == "unsat" && !(r.O.Kind == "vacuity-post" && preUnsat(rr, r.O.Key)) {
@@ -239,6 +245,11 @@ func cmdCheck(args []string) int {
 		}
 		if paths[fr.Func] > 0 && feasible[fr.Func] == 0 {
 			violation(shortFunc(fr.Func)+"/vacuity", "no feasible path reaches an exit of "+shortFunc(fr.Func)+": the proof is vacuous", nil, true)
+		}
+	}
+	for k, t := range beTotal {
+		if beFeasible[k] == 0 {
+			vacuous = append(vacuous, fmt.Sprintf("%s: none of the %d paths through the loop body is feasible", k, t))
 		}
 	}
 	for _, v := range vacuous {
